@@ -101,6 +101,7 @@ theorem inv_tokSend (h : Inv s) (hs : step s .tokSend = some s') : Inv s' := by 
 theorem inv_tokDrop (h : Inv s) (hs : step s .tokDrop = some s') : Inv s' := by inv_tac
 theorem inv_ret (h : Inv s) (hs : step s .ret = some s') : Inv s' := by inv_tac
 theorem inv_doneAgain (h : Inv s) (hs : step s .doneAgain = some s') : Inv s' := by inv_tac
+theorem inv_stopCheck (h : Inv s) (hs : step s .stopCheck = some s') : Inv s' := by inv_tac
 
 theorem inv_step (a : Act) (h : Inv s) (hs : step s a = some s') : Inv s' := by
   cases a with
@@ -130,6 +131,7 @@ theorem inv_step (a : Act) (h : Inv s) (hs : step s a = some s') : Inv s' := by
   | tokDrop => exact inv_tokDrop h hs
   | ret => exact inv_ret h hs
   | doneAgain => exact inv_doneAgain h hs
+  | stopCheck => exact inv_stopCheck h hs
 
 theorem inv_run (as : List Act) : ∀ {s s' : St}, Inv s → run s as = some s' → Inv s' := by
   induction as with
@@ -178,18 +180,23 @@ def DInv (d : DSt) : Prop :=
   -- the done closure
   (d.var = 2 → (d.flag = 1 → 6 ≤ d.pc ∧ d.pc ≤ 10) ∧ (6 ≤ d.pc ∧ d.pc ≤ 10 → d.flag = 1)) ∧
   (d.var ≠ 2 → d.flag = 0) ∧
-  (d.flag = 0 → d.dones = 0) ∧ (d.flag = 1 → 1 ≤ d.dones)
+  (d.flag = 0 → d.dones = 0) ∧ (d.flag = 1 → 1 ≤ d.dones) ∧
+  -- the stop check of the conclusion: after the module decrement, before the global one
+  d.chk ≤ 1 ∧ (d.pc < 7 ∨ d.pc = 11 → d.chk = 0) ∧ (8 ≤ d.pc ∧ d.pc ≤ 10 → d.chk = 1)
 
 theorem dinv_new (cls var nilm zd : Nat) : DInv (DSt.new cls var nilm zd) := by
   unfold DInv DSt.new; simp
+
+/-- regenerated: `concludeMicroTask` runs the stop check unconditionally between its two decrements -/
+theorem concludeChecksStop_true : concludeChecksStop = true := rfl
 
 syntax "dinv_tac" : tactic
 set_option hygiene false in
 macro_rules
   | `(tactic| dinv_tac) => `(tactic|
       (unfold DInv at *
-       simp only [dstep, prioCls, if_true, if_false, Bool.false_eq_true] at hs
-       (repeat' split at hs) <;> (try cases hs) <;> (try dsimp only) <;> grind (splits := 40)))
+       simp only [dstep, prioCls, if_true, if_false, Bool.false_eq_true, concludeChecksStop_true, true_implies] at hs
+       (repeat' split at hs) <;> (try cases hs) <;> (try dsimp only) <;> grind (splits := 90)))
 
 variable {d d' : DSt}
 
@@ -222,6 +229,7 @@ theorem dinv_tokSend (h : DInv d) (hs : dstep d .tokSend true = some d') : DInv 
 theorem dinv_tokDrop (h : DInv d) (hs : dstep d .tokDrop true = some d') : DInv d' := by dinv_tac
 theorem dinv_ret (h : DInv d) (hs : dstep d .ret true = some d') : DInv d' := by dinv_tac
 theorem dinv_doneAgain (h : DInv d) (hs : dstep d .doneAgain true = some d') : DInv d' := by dinv_tac
+theorem dinv_stopCheck (h : DInv d) (hs : dstep d .stopCheck true = some d') : DInv d' := by dinv_tac
 
 theorem dinv_me_none (a : Act) (hs : dstep d a true = some d')
     (h1 : a = .flag ∨ a = .read ∨ a = .pickOther ∨ a = .close ∨ a = .count ∨ a = .wakeToken ∨ a = .wakeTick ∨ a = .shutdown) :
@@ -259,6 +267,7 @@ theorem dinv_step (a : Act) (me : Bool) (h : DInv d) (hs : dstep d a me = some d
     | tokDrop => exact dinv_tokDrop h hs
     | ret => exact dinv_ret h hs
     | doneAgain => exact dinv_doneAgain h hs
+    | stopCheck => exact dinv_stopCheck h hs
 
 /-- An action of somebody else leaves the followed task alone, except the scheduler's `close` / `count` on the
     task's own request. (This is why the acceptor only has to apply `dstep … false` to the task whose request
@@ -288,6 +297,39 @@ theorem finv_run (tr : List (Act × Bool)) : ∀ {f f' : FSt}, Inv f.g → DInv 
     · rename_i f1 hf1
       have := fstep_some hf1
       exact ih (inv_step a h1 this.1) (dinv_step a me h2 this.2) hr
+    · cases hr
+
+/-! ### the individually followed module -/
+
+theorem addK_run (m : MSt) : addK m dModRun = { m with kI := m.kI + 1 } := rfl
+theorem addK_conclude (m : MSt) : addK m dModConclude = { m with kD := m.kD + 1 } := rfl
+
+theorem stopCheckMicro_iff (c : Int) : stopCheckMicro c = true ↔ c = 0 := by
+  unfold stopCheckMicro
+  exact decide_eq_true_iff
+
+def MInv (m : MSt) : Prop :=
+  m.kI = m.kD + m.run ∧ m.flag ≤ 1 ∧ m.done ≤ 1 ∧ m.st ≤ 2 ∧ m.sp ≤ 3 ∧
+  (m.st = 2 ↔ m.sp ≠ 0) ∧ (2 ≤ m.sp → m.flag = 1) ∧ (m.st = 1 → m.flag = 0)
+
+theorem minv_init : MInv MSt.init := by
+  unfold MInv MSt.init; simp
+
+theorem minv_step {m m' : MSt} (a : MAct) (h : MInv m) (hs : mstep m a = some m') : MInv m' := by
+  unfold MInv at *
+  cases a <;>
+    simp only [mstep, addK_run, addK_conclude] at hs <;>
+    (repeat' split at hs) <;> (try cases hs) <;> (try dsimp only) <;> grind
+
+theorem minv_run (as : List MAct) : ∀ {m m' : MSt}, MInv m → mrun m as = some m' → MInv m' := by
+  induction as with
+  | nil => intro m m' h hr; simp [mrun] at hr; subst hr; exact h
+  | cons a as ih =>
+    intro m m' h hr
+    simp only [mrun] at hr
+    split at hr
+    · rename_i m1 hm1
+      exact ih (minv_step a h hm1) hr
     · cases hr
 
 end PB.MicroTasks
